@@ -31,27 +31,29 @@ def connector(kind):
 
 
 def build(kind, shape, clauses):
-    """shape: 'flat2' = two-pin components c1, c2 + top-level t1, t2;  'flat3' adds c3;
+    """shape: 'flat2' = two-pin components c1, c2 + top-level t, t2;  'flat3' adds c3;
     'nested' = c1 is a Comp2 whose own connector p is connected inside to a sub-component (mixed
     inside/outside roles of c1.p at two levels)."""
-    classes = [connector(kind), Cls("Comp", comps=[Comp("p", "Pin"), Comp("n", "Pin")])]
+    classes = [connector(kind), Cls("Comp", comps=[Comp("p", "Pin"), Comp("p2", "Pin")])]
     comps = [Comp("c1", "Comp"), Comp("c2", "Comp")]
     if shape == "flat3":
         comps.append(Comp("c3", "Comp"))
     if shape == "nested":
         classes.append(Cls("Inner", comps=[Comp("p", "Pin")]))
-        classes.append(Cls("Comp2", comps=[Comp("p", "Pin"), Comp("n", "Pin"), Comp("r", "Inner")], eqs=[("connect", "p", "r.p")]))
+        classes.append(Cls("Comp2", comps=[Comp("p", "Pin"), Comp("p2", "Pin"), Comp("r", "Inner")], eqs=[("connect", "p", "r.p")]))
         comps[0] = Comp("c1", "Comp2")
-    comps += [Comp("t1", "Pin"), Comp("t2", "Pin")]
+    comps += [Comp("t", "Pin"), Comp("t2", "Pin")]
     classes.append(Cls("Top", comps=comps, eqs=[("connect", a, b) for a, b in clauses]))
     return Lib(classes), "Top"
 
 
+# Names are chosen so that one connector's flat name is a proper string prefix of another's (c1.p / c1.p2,
+# t / t2): bookkeeping by name must not confuse a connected connector with an unconnected namesake.
 ENDPOINTS = {
-    "flat2": ["c1.p", "c1.n", "c2.p", "t1", "t2"],
-    "flat2w": ["c1.p", "c1.n", "c2.p", "c2.n", "t1", "t2"],
-    "flat3": ["c1.p", "c1.n", "c2.p", "c2.n", "c3.p", "t1", "t2"],
-    "nested": ["c1.p", "c1.n", "c2.p", "t1"],
+    "flat2": ["c1.p", "c1.p2", "c2.p", "t", "t2"],
+    "flat2w": ["c1.p", "c1.p2", "c2.p", "c2.p2", "t", "t2"],
+    "flat3": ["c1.p", "c1.p2", "c2.p", "c2.p2", "c3.p", "t", "t2"],
+    "nested": ["c1.p", "c1.p2", "c2.p", "t"],
 }
 
 
